@@ -198,6 +198,7 @@ pub fn run(r: &Runner) {
     families_phase(r, "partial-prefixes", &|_e, _c| true, check);
     chunk_sweep_phase(r, "partial-prefixes", check);
     long_target_phase(r, "partial-one", &|_e, _c| true, check);
+    long_field_phase(r, "partial-one", &|_e, _c| true, check);
     // k leading empty lines then a start line cut / damaged within its first 15 bytes
     {
         const BAD: [u8; 6] = [0x00, 0x01, b'\r', b' ', 0x7f, b'\t'];
